@@ -116,8 +116,16 @@ def simulate(module, cfg, num, depth, seed, workdir, workers=4, cwd=None, timeou
                   "-workers", str(workers), "-seed", str(seed),
                   "-metadir", os.path.join(workdir, "simmeta"), "-noGenerateSpecTE",
                   "-config", cfg, module]
-    pr = subprocess.run(cmd, cwd=cwd, stdout=subprocess.PIPE, stderr=subprocess.STDOUT, text=True,
-                        timeout=timeout)
+    class _R(object):
+        stdout = ""
+    try:
+        pr = subprocess.run(cmd, cwd=cwd, stdout=subprocess.PIPE, stderr=subprocess.STDOUT, text=True,
+                            timeout=timeout)
+    except subprocess.TimeoutExpired as ex:
+        # (a loaded machine) use the behaviours written so far
+        pr = _R()
+        o = ex.stdout
+        pr.stdout = (o.decode("utf-8", "replace") if isinstance(o, bytes) else (o or "")) + "\n[simulation stopped after %d s]" % timeout
     behaviours = []
     for f in sorted(glob.glob(out + "/t_*")):
         try:
